@@ -295,3 +295,4 @@ m("c18-ladder-stage-skipped", "src/stream.c",
         p_sched->used = ABTI_SCHED_NOT_USED;
         ABTI_mem_finalize_local(p_newxstream);
     }""", "C18.R2")
+revert("f3-consume-int-overflow", "7a69f37", "C20.R4")
